@@ -1,5 +1,5 @@
 """C02 Each operation receives exactly its own kernel results, once and in order."""
-from .kernel import (ExprBuilder, Loc, access_path, bool_call_switches, const_switches, specialise,
+from .kernel import (specialise_value, ExprBuilder, Loc, access_path, bool_call_switches, const_switches, specialise,
                      subexprs, variant_edges)
 from . import families as fam
 from . import life
@@ -76,19 +76,22 @@ def r2_tag_layout(r, facts):
         r.inst('%s=%d' % (n, v))
         r.require(0 <= v <= 3, 'reserved:%s' % n, 'reserved user_data %s=%d is not below the minimum state alignment' % (n, v))
     css = const_switches(f, 'OpResult>::IS_MULTISHOT')
-    if r.require(len(css) == 1, 'user_data/switch', 'user_data does not select the tag by IS_MULTISHOT', f.where()):
-        cs = css[0]
-        for val, tgt, want in ((True, cs['true'], multi), (False, cs['false'], single)):
-            ok = False
-            for i, s in enumerate(f.stmts(tgt)):
-                if s['k'] == 'assign' and s['lhs']['l'] == 0 and not s['lhs']['p']:
-                    e = eb.rvalue(s['rv'])
-                    if e[0] == 'bin' and e[1] == 'BitOr':
-                        tags = [y for y in subexprs(e) if y[0] == 'const']
-                        addr = [y for y in subexprs(e) if y[0] == 'call' and y[1].endswith('expose_provenance')]
-                        ok = bool(addr) and any(t[1] == want for t in tags) and fam.last_field(addr[0][2][0]) == 'data'
-                        r.inst('IS_MULTISHOT=%s: %s' % (val, e), f.where(Loc(tgt, i)))
-            r.require(ok, 'user_data/%s' % ('multi' if val else 'single'), 'user_data is not expose(self.data) | %d when IS_MULTISHOT=%s' % (want, val), f.where())
+    r.require(len(css) >= 1, 'user_data/switch', 'user_data does not select the tag by IS_MULTISHOT', f.where())
+    for val, want in ((True, multi), (False, single)):
+        g = specialise(f, 'OpResult>::IS_MULTISHOT', val)
+        eg = ExprBuilder(g, multi='phi')
+        ok = False
+        rets = [eg.rvalue(s_['rv']) for loc, s_ in g.assigns() if s_['lhs']['l'] == 0 and not s_['lhs']['p'] and loc[0] in g.reachable_blocks(0)]
+        for e in rets:
+            ors = [x for x in subexprs(e) if x[0] == 'bin' and x[1] == 'BitOr']
+            for o in ors:
+                tags = [y for y in (o[2], o[3]) if y[0] == 'const' or (y[0] == 'cast' and y[4][0] == 'const')]
+                tagv = [(y[1] if y[0] == 'const' else y[4][1]) for y in tags]
+                addr = [y for y in subexprs(o) if y[0] == 'call' and y[1].endswith('expose_provenance')]
+                if addr and tagv == [want] and fam.last_field(addr[0][2][0]) == 'data':
+                    ok = True
+            r.inst('IS_MULTISHOT=%s: %s' % (val, str(e)[:120]), g.where())
+        r.require(ok, 'user_data/%s' % ('multi' if val else 'single'), 'user_data is not expose(self.data) | %d when IS_MULTISHOT=%s: %s' % (want, val, [str(e)[:100] for e in rets]), f.where())
     data = facts.adt('io_uring::op::Data')
     r.require(data['repr_c'], 'Data.repr', 'Data is not repr(C): the user_data address need not be the address of the Mutex<Shared>')
     fl = data['variants'][0]['fields']
@@ -109,35 +112,36 @@ def r3_dispatch(r, facts):
     r.require(len(ups) == 2, 'process/update-sites', 'expected two update call sites (single/multi), found %d' % len(ups), f.where())
     multi = facts.const('io_uring::cq::MULTISHOT_TAG')
     mask = facts.const('io_uring::cq::TAG_MASK')
-    # the switch selecting between them tests (addr & MULTISHOT_TAG) == 0
-    sel = None
-    for b, blk in enumerate(f.blocks):
-        t = blk['term']
-        if blk['cleanup'] or t['k'] != 'switch':
-            continue
-        e = eb.operand(t['discr'])
-        if e[0] == 'bin' and e[1] in ('Eq', 'Ne') and e[3][0] == 'const' and e[3][1] == 0 and e[2][0] == 'bin' and e[2][1] == 'BitAnd':
-            cs = [y for y in (e[2][2], e[2][3]) if y[0] == 'const']
-            if cs and cs[0][1] == multi and any(x[0] == 'call' and 'with_exposed_provenance' in x[1] for x in subexprs(e)):
-                si = f.switch_info(b)
-                zero_edge = (b, si['values'].get(1, si['otherwise'])) if e[1] == 'Eq' else (b, si['values'].get(0))
-                one_edge = (b, si['values'].get(0)) if e[1] == 'Eq' else (b, si['values'].get(1, si['otherwise']))
-                sel = (zero_edge, one_edge)
-    if not r.require(sel is not None, 'process/tag-test', 'test of tag bit 0 of the user_data pointer not found', f.where()):
+    # the dispatch is decided by value: with the address of the exposed pointer fixed to an aligned value without /
+    # with the tag bit, only the Singleshot / only the Multishot update is reachable (bool test, match on the tag,
+    # or any other spelling alike)
+    def subj(e):
+        if e[0] == 'call' and e[1].endswith('::addr') and any(x[0] == 'call' and 'with_exposed_provenance' in x[1] for x in subexprs(e)):
+            return True
+        if e[0] == 'cast' and e[3] == 'usize' and any(x[0] == 'call' and 'with_exposed_provenance' in x[1] for x in subexprs(e)):
+            return True
+        return False
+    ndec = 0
+    for tagv, want in ((0, 'Singleshot'), (multi, 'Multishot')):
+        g, decided = specialise_value(f, subj, 0x1000 | tagv, eb)
+        ndec = max(ndec, len(decided))
+        reach = g.reachable_blocks(0)
+        live = [('Singleshot' if 'Singleshot' in (t.get('callee_full') or '') else 'Multishot') for loc, t in ups if loc[0] in reach]
+        r.inst('tag bits %d -> reachable update(s): %s' % (tagv, live), f.where())
+        r.require(live == [want], 'process/dispatch:%s' % ('single' if tagv == 0 else 'multi'),
+                  'a completion whose user_data carries tag %d reaches %s, expected exactly Shared::<%s>::update' % (tagv, live or 'no update', want), f.where())
+    if not r.require(ndec >= 1, 'process/tag-test', 'no branch of process is decided by the tag bit of the user_data pointer (unrecognised form)', f.where()):
         return
     for loc, t in ups:
-        full = t.get('callee_full') or ''
-        single = 'Singleshot' in full
-        edge = sel[0] if single else sel[1]
-        r.inst('update %s' % ('Singleshot' if single else 'Multishot'), f.where(loc))
-        r.require(f.edge_dominates(edge, loc), 'process/dispatch:%s' % ('single' if single else 'multi'),
-                  'Shared::<%s>::update is called on the wrong tag edge' % ('Singleshot' if single else 'Multishot'), f.where(loc))
         # the receiver derives from the masked pointer
         e = eb.operand(t['args'][0])
         masked = [x for x in subexprs(e) if x[0] == 'call' and x[1].endswith('map_addr')]
         r.require(bool(masked), 'process/masked-pointer', 'update receiver is not derived from the tag-masked pointer', f.where(loc))
     # masking closure: addr & TAG_MASK
     cl = [g for g in facts.func_list if g.kind == 'closure' and g.path.startswith(life.PROCESS + '::')]
+    # closures created inside process (also by helpers inlined into it)
+    made = {s_['rv'].get('closure') for loc, s_ in f.assigns() if s_['rv']['k'] == 'agg' and s_['rv'].get('ak') == 'closure'}
+    cl += [g for g in facts.func_list if g.kind == 'closure' and g.path in made and g not in cl]
     okm = False
     for g in cl:
         ge = ExprBuilder(g)
